@@ -85,6 +85,9 @@ type iterInfo struct {
 }
 
 type loopInfo struct {
+	frameRanges map[string][][2]string // explicit loop frame (loop k modifies): comp -> ranges
+	hdrHeap     map[string]string      // heap versions at the loop head (after havoc)
+	hdrAlloc    string
 	header *ssa.BasicBlock
 	body   map[*ssa.BasicBlock]bool
 	ord    int
@@ -1202,7 +1205,33 @@ func (e *Enc) loopClauses(fr *Frame, li *loopInfo) []*Clause {
 	return c.LoopInv[li.ord]
 }
 
+func (e *Enc) checkLoopFrame(fr *Frame, li *loopInfo, st *State) {
+	var comps []string
+	for c := range li.frameRanges {
+		comps = append(comps, c)
+	}
+	sort.Strings(comps)
+	for _, comp := range comps {
+		hv := li.hdrHeap[comp]
+		cur := e.comp(st, comp, e.compSort[comp])
+		if cur == hv {
+			continue
+		}
+		a := e.s.Fresh("lfa", "Int")
+		var allowed []string
+		for _, r := range li.frameRanges[comp] {
+			allowed = append(allowed, fmt.Sprintf("(and (<= %s %s) (< %s (+ %s %s)))", r[0], a, a, r[0], r[1]))
+		}
+		goal := implies(and(fmt.Sprintf("(< %s %s)", a, li.hdrAlloc), not(or(allowed...))), eq(sel(cur, a), sel(hv, a)))
+		st2 := st.clone()
+		e.oblige(st2, fmt.Sprintf("loop%d-frame:%s", li.ord, comp), goal, "loop body writes "+comp+" only inside the declared loop frame", nil)
+	}
+}
+
 func (e *Enc) checkLoopInv(fr *Frame, li *loopInfo, from *ssa.BasicBlock, st *State, which string) {
+	if which == "preserve" && len(li.frameRanges) > 0 {
+		e.checkLoopFrame(fr, li, st)
+	}
 	over := map[ssa.Value]*Val{}
 	idx := predIndex(li.header, from)
 	for _, instr := range li.header.Instrs {
@@ -1290,12 +1319,49 @@ func (e *Enc) havocLoop(fr *Frame, li *loopInfo, st *State) {
 		e.havocAll(st)
 		return
 	}
+	// explicit loop frame
+	if c := e.w.contractFor(fr.fn); c != nil && len(c.LoopMod[li.ord]) > 0 {
+		env := e.specEnv(fr, st, li.header)
+		li.frameRanges = map[string][][2]string{}
+		for _, cl := range c.LoopMod[li.ord] {
+			for _, t := range e.evalModTarget(cl.E, env) {
+				switch t.kind {
+				case "point":
+					li.frameRanges[t.comp] = append(li.frameRanges[t.comp], [2]string{t.addr, "1"})
+				case "range":
+					li.frameRanges[t.comp] = append(li.frameRanges[t.comp], [2]string{t.addr, t.n})
+				}
+				if _, ok := ws[t.comp]; !ok {
+					ws.get(t.comp, t.sort)
+				}
+			}
+		}
+		for comp, rs := range li.frameRanges {
+			w := ws[comp]
+			// keep "fresh" ranges found syntactically, replace the rest by the declared frame
+			var keep [][2]string
+			for _, r := range w.ranges {
+				if r[0] == "fresh" {
+					keep = append(keep, r)
+				}
+			}
+			w.whole = false
+			w.ranges = append(keep, rs...)
+		}
+	}
 	var ks []string
 	for k := range ws {
 		ks = append(ks, k)
 	}
 	sort.Strings(ks)
 	entryAlloc := st.alloc
+	li.hdrHeap = map[string]string{}
+	defer func() {
+		for comp := range li.frameRanges {
+			li.hdrHeap[comp] = st.heap[comp]
+		}
+		li.hdrAlloc = entryAlloc
+	}()
 	for _, k := range ks {
 		w := ws[k]
 		old := e.comp(st, k, w.sort)
